@@ -15,7 +15,8 @@ OWNERS = {
     'C06': ['reorder', 'copy.result', 'rename', 'sort_order.unknown_id',
             'perturb.sortinv', 'perturb.tt', 'perturb.copy'],
     'C07': ['bystander', 'noninplace', 'inplace', 'newtable',
-            '*.refused_changed', 'perturb.copy'],
+            '*.refused_changed', '*.receiver_changed', '*.input_changed',
+            '*.source_changed', 'perturb.copy'],
     'C08': ['filter', 'remove_empty', 'head', 'perturb.filterall'],
     'C09': ['merge'],
     'C10': ['concat'],
@@ -145,7 +146,7 @@ PROFILES = {
 for pid, probes, extra in (
         ('C01', {'c01_roundtrip': 1.0}, {}),
         ('C04', {'c04_spec': 1.0}, {}),
-        ('C14', {'c14_subset': 1.0}, {}),
+        ('C14', {'c14_subset': 1.0}, {'maxdims': [2, 3, 4, 6, 12, 14]}),
         ('C15', {'c15_validate': 1.0}, {})):
     PROFILES[pid] = dict({
         'name': pid, 'ops': {o: 1.0 for o in ALL_OPS},
